@@ -219,6 +219,7 @@ pub fn run(ctx: &Ctx) -> Outcome {
     );
     out.assumptions = vec![
         "references: glibc (localtime_r through refs/glibc_ref.c) and CPython zoneinfo (refs/zoneinfo_ref.py) as installed in this image, reading the same bytes".into(),
+        "TZ strings vs glibc: end-first rules with tie years are excluded and counted (glibc flips at 1 January of a tie year; C04 decides those rules)".into(),
         "rule-less files (right/ tree has empty footers): at/after the last transition tz-rs must return exactly NoAvailableLocalTimeType (references extrapolate): excluded from comparison and counted".into(),
         "zoneinfo compared on (offset, abbreviation) only; isdst and broken-down fields against glibc only; right/ tree against glibc only".into(),
     ];
@@ -491,6 +492,14 @@ pub fn run(ctx: &Ctx) -> Outcome {
             };
             if !crate::orule::classify(&r).interleaves() {
                 st.exclude("overlapping rule");
+                continue;
+            }
+            // glibc decides per calendar year from that year's start / end order: for an end-first rule whose start and end coincide
+            // in SOME years (e.g. "WXYZ11ABCDE9,J83/24,83": equal in common years, a day apart in leap years) it flips at 1 January of
+            // every tie year — the behaviour tz-rs itself had before the F1 repair and that C04 rules out. Outside glibc's validity
+            // as a reference, like its other limits (found by the thorough tier with seed 4: a false alarm of this check, not a defect).
+            if crate::orule::classify(&r) == crate::orule::Class::MixedTieE {
+                st.exclude("end-first rule with tie years: glibc's per-year evaluation flips at New Year (reference not valid)");
                 continue;
             }
             writeln!(b.g_in, "T {s}").unwrap();
